@@ -250,6 +250,8 @@ class Normalizer:
             self._replace_node(f, self.dissolve_objects(f))
         self._drop_unreferenced()
         for f in list(repo.funcs.values()):
+            self._replace_node(f, self.thread_flags(f))
+        for f in list(repo.funcs.values()):
             self._replace_node(f, self.guard_form(f))
         for f in list(repo.funcs.values()):
             self._replace_node(f, self.split_ifexp(f))
@@ -1730,6 +1732,90 @@ class Normalizer:
                 self.log["positional"].append(f"{f.qual}:{n.lineno} {unparse(n.func)}")
         return new if hit else None
 
+    # ------------------------------------------------------------------------------------------ N25
+    def thread_flags(self, f: Func) -> t.Optional[FuncNode]:
+        """An if-nest whose every leaf (tail position) assigns a boolean flag r, directly followed by `if not r: T` /
+        `if r: ... ` with T ending in raise / return, r used nowhere else:  each leaf `r = False` becomes T, `r = True`
+        becomes nothing, `r = e` becomes `if not e: T`, and the test on r disappears (jump threading: what an inlined
+        predicate helper `if not ok(x): raise` looks like after N1)."""
+        hit = [False]
+        uses: t.Dict[str, int] = {}
+        for n in _walk_no_scopes(f.node):
+            if isinstance(n, ast.Name) and isinstance(n.ctx, ast.Load):
+                uses[n.id] = uses.get(n.id, 0) + 1
+
+        def leaves_assign(stmts: t.List[ast.stmt], r: str) -> bool:
+            """Every path through the block ends by assigning r (as its last statement), r is not touched before."""
+            if not stmts:
+                return False
+            last = stmts[-1]
+            for s_ in stmts[:-1]:
+                if any(isinstance(x, ast.Name) and x.id == r for x in ast.walk(s_)):
+                    return False
+            if isinstance(last, ast.Assign) and len(last.targets) == 1 and isinstance(last.targets[0], ast.Name) and last.targets[0].id == r:
+                return not any(isinstance(x, ast.Name) and x.id == r for x in ast.walk(last.value))
+            if isinstance(last, ast.If) and last.orelse:
+                if any(isinstance(x, ast.Name) and x.id == r for x in ast.walk(last.test)):
+                    return False
+                return leaves_assign(last.body, r) and leaves_assign(last.orelse, r)
+            return False
+
+        def rewrite(stmts: t.List[ast.stmt], r: str, on_false: t.List[ast.stmt], negated: bool) -> t.List[ast.stmt]:
+            out = list(stmts[:-1])
+            last = stmts[-1]
+            if isinstance(last, ast.Assign):
+                v = last.value
+                if isinstance(v, ast.Constant):
+                    if bool(v.value) == negated:
+                        out += copy.deepcopy(on_false)
+                    elif not out:
+                        out.append(ast.copy_location(ast.Pass(), last))
+                else:
+                    test = v if negated else _negate(v)
+                    out.append(ast.copy_location(ast.If(test=test, body=copy.deepcopy(on_false), orelse=[]), last))
+                return out
+            assert isinstance(last, ast.If)
+            new = copy.copy(last)
+            new.body = rewrite(last.body, r, on_false, negated)
+            new.orelse = rewrite(last.orelse, r, on_false, negated)
+            out.append(new)
+            return out
+
+        def block(stmts: t.List[ast.stmt]) -> t.List[ast.stmt]:
+            out: t.List[ast.stmt] = []
+            i = 0
+            while i < len(stmts):
+                s_ = stmts[i]
+                if not isinstance(s_, (ast.FunctionDef, ast.AsyncFunctionDef, ast.ClassDef)):
+                    for fld in ("body", "orelse", "finalbody"):
+                        blk = getattr(s_, fld, None)
+                        if isinstance(blk, list) and blk and isinstance(blk[0], ast.stmt):
+                            setattr(s_, fld, block(blk))
+                    if isinstance(s_, ast.Try):
+                        for h in s_.handlers:
+                            h.body = block(h.body)
+                nxt = stmts[i + 1] if i + 1 < len(stmts) else None
+                if isinstance(s_, ast.If) and s_.orelse and isinstance(nxt, ast.If) and not nxt.orelse and _terminates(nxt.body):
+                    tst = nxt.test
+                    negated = False  # the terminating branch runs when r is false
+                    core = tst
+                    if isinstance(core, ast.UnaryOp) and isinstance(core.op, ast.Not):
+                        core = core.operand
+                    else:
+                        negated = True  # `if r: T` - the terminating branch runs when r is true
+                    if isinstance(core, ast.Name) and uses.get(core.id, 0) == 1 and leaves_assign([s_], core.id):
+                        out += rewrite([s_], core.id, list(nxt.body), negated)
+                        hit[0] = True
+                        i += 2
+                        continue
+                out.append(s_)
+                i += 1
+            return out
+
+        new = copy.deepcopy(f.node)
+        new.body = block(list(new.body))
+        return new if hit[0] else None
+
     # ------------------------------------------------------------------------------------------ N24
     def _class_of_expr(self, f: Func, e: ast.expr) -> t.Optional[Cls]:
         """Package class of `name` (annotated parameter / annotated local) or `self.attr` (annotated in the class body, or
@@ -1789,6 +1875,15 @@ class Normalizer:
                     if isinstance(s_, ast.Try):
                         for h in s_.handlers:
                             h.body = block(h.body)
+                if isinstance(s_, ast.Assign) and len(s_.targets) == 1 and isinstance(s_.targets[0], ast.Tuple) and isinstance(s_.value, (ast.Tuple, ast.List)) and len(s_.value.elts) == len(s_.targets[0].elts) and not any(isinstance(x, ast.Starred) for x in list(s_.targets[0].elts) + list(s_.value.elts)) and all(isinstance(x, ast.Name) for x in s_.targets[0].elts):
+                    # a, b = (x, y)  ->  a = x; b = y   when no target is read by a later element
+                    tnames = [t.cast(ast.Name, x).id for x in s_.targets[0].elts]
+                    clash = any(isinstance(n_, ast.Name) and n_.id in tnames[:i_] for i_, v_ in enumerate(s_.value.elts) for n_ in ast.walk(v_))
+                    if not clash and len(set(tnames)) == len(tnames):
+                        for el, v_ in zip(s_.targets[0].elts, s_.value.elts):
+                            out.append(ast.copy_location(ast.Assign(targets=[el], value=v_), s_))
+                        hit[0] = True
+                        continue
                 if isinstance(s_, ast.Assign) and len(s_.targets) == 1 and isinstance(s_.targets[0], ast.Tuple) and _is_pure_path(s_.value) and not any(isinstance(x, ast.Starred) for x in s_.targets[0].elts):
                     cls = self._class_of_expr(f, s_.value)
                     if cls is not None and any(x.endswith("NamedTuple") for x in cls.ext_bases):
